@@ -311,6 +311,12 @@ def _run_measure(ctx, spec, rng):
     d = 2 + r % 4
     cplx = bool(r % 2)
     rho = gen.density(rng, d, 1 + (r // 2) % d, cplx)
+    state_kind = "same-field"
+    if (r // 4) % 3 == 1:  # real-dtype state measured with complex operators
+        rho, cplx, state_kind = np.ascontiguousarray(gen.density(rng, d, 1 + (r // 2) % d, False).real), True, "float-state"
+    elif (r // 4) % 3 == 2:  # integer-dtype basis state measured with complex operators
+        rho, cplx, state_kind = np.zeros((d, d), dtype=int), True, "int-state"
+        rho[r % d, r % d] = 1
     kind = r % 4
     if kind == 0:  # projective measurement in a Haar basis
         u = gen.haar(rng, d, real=not cplx)
@@ -325,7 +331,7 @@ def _run_measure(ctx, spec, rng):
         ops = gen.stinespring_kraus(rng, d, d + 1, 2, cplx)
     want_p = [float(np.trace(k @ rho @ k.conj().T).real) for k in ops]
     probs = _call(ctx, measure, rho.copy(), [k.copy() for k in ops])
-    sig = (d, kind, cplx)
+    sig = (d, kind, cplx, state_kind)
     if probs is not None:
         dev = max(abs(a - b) for a, b in zip(probs, want_p)) if len(probs) == len(want_p) else float("inf")
         ctx.check("meas:born-probabilities", dev <= 1e-10 and abs(sum(probs) - 1) <= 1e-9, dev=dev, tol=1e-10, sig=sig, nt=True, mech="measure:not-born-rule-or-not-normalised",
